@@ -305,7 +305,7 @@ func main() {
 	workers := c.Workers()
 	// the pure streams are split into `workers` chunks that run as sequences of their own
 	chunks := workers * 2
-	kapp.RunSeqs(n+2*chunks, workers, r, sim.NewWorld, func(w *sim.World, seq int, r *c.Rng) {
+	kapp.RunSeqs(n+2*chunks, workers, r, sim.NewWorldBarrier(workers), func(w *sim.World, seq int, r *c.Rng) {
 		switch {
 		case seq < chunks:
 			pureCases(w, out, r, nPure/chunks+1)
